@@ -584,6 +584,14 @@ inductive Outcome
 /-- `array('I', [n in scope for n in other])` -/
 def scopeArray (m : LMol) (cand : List Nat) : List Bool := m.ids.map (cand.contains ·)
 
+/-- a candidate target component that is not emptied by the scope restriction -/
+def survives (scope : Option (List Nat)) (c : List Nat) : Bool := !(Iso.scopeActive scope && (Iso.restrict scope c).isEmpty)
+
+/-- is the overridden mapper called at all (and with it `other._cython_compiled_structure` evaluated)? `k` = number of query components -/
+def neededC (tComps : List (List Nat)) (scope : Option (List Nat)) (k : Nat) : Bool :=
+  if k == 1 then tComps.any (survives scope)
+  else (Iso.permutations tComps k).any fun cands => match cands with | c :: _ => survives scope c | [] => false
+
 /-- `query.get_mapping(mol, automorphism_filter, searching_scope)` with the translated extension installed -/
 def cythonPath (q : LQuery) (m : LMol) (tComps : List (List Nat)) (scope : Option (List Nat)) (autoF : Bool) : Outcome :=
   match Iso.compileQuery q.graph with
@@ -595,10 +603,7 @@ def cythonPath (q : LQuery) (m : LMol) (tComps : List (List Nat)) (scope : Optio
     | .error e => .err e
     | .ok cqs =>
       -- the mapper is only called when some candidate component survives the scope restriction
-      let survives := fun (c : List Nat) => !(Iso.scopeActive scope && (Iso.restrict scope c).isEmpty)
-      let needed := if cqs.length == 1 then tComps.any survives
-                    else (Iso.permutations tComps cqs.length).any fun cands =>
-                      match cands with | c :: _ => survives c | [] => false
+      let needed := neededC tComps scope cqs.length
       if !needed then .ok []
       else
         match encStructure m with
